@@ -3,6 +3,7 @@
   the file branch of the loop body (`copyFileAt`) and analysed with the content lemmas.
 -/
 import Rivia.Lemmas.Content
+import Rivia.Lemmas.MovedEntry
 import Rivia.Lemmas.Relative
 import Rivia.Lemmas.Components
 
@@ -298,21 +299,22 @@ theorem keeps_moveRest (sk dk : FsPath) (f : Nat) : KeepsFiles (moveRest sk dk f
 theorem moveLoop_single {s : State} {sk dk : FsPath} {e : Entry} (f : Nat)
     (he : alLookup sk s.entries = some e)
     (hfs : e.files = none)
-    (hdstOf : dstOf dk sk sk = dk) :
+    (hdstOf : dstOf dk sk sk = dk) (hdk0 : dk ≠ []) :
     moveLoop sk dk false (f + 2) [sk] s =
       moveRest sk dk f
-        { s with entries := alInsert dk { e with path := dk } (alErase sk s.entries),
+        { s with entries := alInsert dk (movedEntry e dk) (alErase sk s.entries),
                  files := match alLookup sk s.files with
                    | some b => alInsert dk b (alErase sk s.files)
                    | none => alErase sk s.files } := by
-  simp only [moveLoop, Bool.false_eq_true, if_false, mpure_bind_apply, hdstOf, removeEntry_bind, he,
-    setEntry_bind, removeFile_bind]
+  rw [show f + 2 = (f + 1) + 1 from rfl, moveLoop_succ_cons]
+  simp only [Bool.false_eq_true, if_false, mpure_bind_apply, hdstOf, removeEntry_bind, he,
+    movedRelM_eq_pure (movedOk_of_ne hdk0), setEntry_bind, removeFile_bind]
   cases hb : alLookup sk s.files with
   | none =>
-    simp only [mpure_bind_apply, hfs, List.reverse_nil, List.nil_append]
+    simp only [mpure_bind_apply, hfs, movedEntry, List.reverse_nil, List.nil_append]
     rfl
   | some b =>
-    simp only [setFile_bind, hfs, List.reverse_nil, List.nil_append]
+    simp only [setFile_bind, hfs, movedEntry, List.reverse_nil, List.nil_append]
     rfl
 
 theorem moveM_file {env : Env} {src dst : Str} {s : State} {sk dk : FsPath} {e pd : Entry}
@@ -407,11 +409,11 @@ theorem moveM_file_ok {env : Env} {src dst : Str} {s s' : State} {sk dk : FsPath
   | false =>
     have h8 : 8 * (s.entries.length + 2) = (8 * s.entries.length + 14) + 2 := by omega
     have hk := keeps_moveRest sk dk (8 * s.entries.length + 14)
-      { s with entries := alInsert dk { e with path := dk } (alErase sk s.entries),
+      { s with entries := alInsert dk (movedEntry e dk) (alErase sk s.entries),
                files := match alLookup sk s.files with
                  | some b => alInsert dk b (alErase sk s.files)
                  | none => alErase sk s.files }
-    rw [← moveLoop_single _ he hfs hdstOf, ← h8] at hk
+    rw [← moveLoop_single _ he hfs hdstOf hdk0, ← h8] at hk
     rw [moveM_file hsrc hdst hne hnp he hisdir hdk0 hpar] at h
     split at h
     · split at h
